@@ -266,6 +266,19 @@ def struct_jobs(prop, tier, seed, names=None, budget=None, max_active=None, limi
             if sum(sizes) < min(budget, 2):
                 continue
             jobs.append(dict(harness='pipe_clean', label=f'{name} holes={sizes}', params=dict(tpl=instantiate(tpl, sizes), prop=prop)))
+    # the same documents in other spellings (README-style and multi-byte delimiters); C18 ties all spellings together relationally
+    from props_front import POOL
+    other = [POOL[1], POOL[2], POOL[7], POOL[8]] if tier == 'quick' else POOL[1:]
+    names_ = sorted(STRUCT) if not names else sorted(names)
+    rnd2 = random.Random(seed * 7 + 3)
+    picks = rnd2.sample(names_, min(len(names_), 10 if tier == 'quick' else 30))
+    for k, name in enumerate(picks):
+        tpl = STRUCT[name]
+        vs = variants(tpl, budget, max_active, rnd2, 1)
+        ds_, de_ = other[k % len(other)]
+        for sizes in vs[:1]:
+            jobs.append(dict(harness='pipe_clean', label=f'{name} holes={sizes} ds={ds_!r} de={de_!r}',
+                             params=dict(tpl=instantiate(tpl, sizes), prop=prop, ds=ds_, de=de_)))
     return jobs
 
 
